@@ -78,7 +78,16 @@ impl Add for Sym { type Output = Sym; fn add(self, r: Sym) -> Sym { mk(Node::Add
 impl Sub for Sym { type Output = Sym; fn sub(self, r: Sym) -> Sym { mk(Node::Sub(self.0, r.0), shadow(self) - shadow(r)) } }
 impl Mul for Sym { type Output = Sym; fn mul(self, r: Sym) -> Sym { mk(Node::Mul(self.0, r.0), shadow(self) * shadow(r)) } }
 impl Div for Sym { type Output = Sym; fn div(self, r: Sym) -> Sym { mk(Node::Div(self.0, r.0), shadow(self) / shadow(r)) } }
-impl Rem for Sym { type Output = Sym; fn rem(self, _r: Sym) -> Sym { panic!("Sym: `%` is not modelled") } }
+impl Rem for Sym {
+    type Output = Sym;
+    /// float remainder: a - trunc(a/b)*b, the integer quotient taken from the shadows (logged as a decision)
+    fn rem(self, r: Sym) -> Sym {
+        let k = (shadow(self) / shadow(r)).trunc();
+        decide(format!("rem n{} n{} k = {}", self.0, r.0, k));
+        self - konst_frac(k as i128, 1) * r
+    }
+}
+impl<'a> Rem<&'a Sym> for Sym { type Output = Sym; fn rem(self, r: &Sym) -> Sym { self % *r } }
 impl Neg for Sym { type Output = Sym; fn neg(self) -> Sym { mk(Node::Neg(self.0), -shadow(self)) } }
 impl SubAssign for Sym { fn sub_assign(&mut self, r: Sym) { *self = *self - r; } }
 impl<'a> Add<&'a Sym> for Sym { type Output = Sym; fn add(self, r: &Sym) -> Sym { self + *r } }
